@@ -30,7 +30,11 @@ MANIFEST = dict(
          "double bit patterns, all integers, labels of 0..255 arbitrary bytes, any number of entries, any extra_data; no "
          "size bound) the Model decoder returns exactly the value from the Model encoder's bytes; every representable "
          "value outside the encodable domain makes the encoder throw (never other bytes, never undefined behaviour); for "
-         "schema 1.x the only present cue/loop that reads back absent has offset exactly -1.0. The Model is tied to the "
+         "schema 1.x the only present cue/loop that reads back absent has offset exactly -1.0 and the read-back value is "
+         "stated exactly (zero optional fields read back absent: known finding with _partial/_counterexample); the "
+         "zlib_compress loops, modelled over an abstract deflate oracle with an explicit call contract, provably collect "
+         "all output of all calls, consume the whole payload and stop only after Z_FINISH answered Z_STREAM_END (recorded "
+         "deflate() calls of the real library are replayed through that Model every run). The Model is tied to the "
          "working tree on every run: generated values are encoded and decoded by the real library (sanitizer build) and "
          "by the Model, payloads and results compared byte for byte, and a direct oracle states decode(encode v) = v on "
          "the library's own answers.",
